@@ -17,10 +17,11 @@ const Y: u32 = 0x4CA2D6;
 fn level(t: Tier) -> Level {
     Level {
         category: "fault_enumeration",
-        rule: if t.thorough() { "every script of length <= 6 over {refuse, accept+close, accept+frames(X_k)+close, accept+partial line+reset, accept+junk bytes+close} (19531 scripts) followed by a healthy connection delivering frames of Y and staying open; for scripts of length 1 the partial line runs over every prefix length 1..27 of a 28-digit frame; the length-1 scripts are repeated against the real release CLI with real 5 s pauses; distinct_nontrivial = distinct (script, final key set) outcomes" } else { "every script of length <= 4 over {refuse, accept+close, accept+frames(X_k)+close, accept+partial line+reset, accept+junk bytes+close} (781 scripts) followed by a healthy connection delivering frames of Y and staying open; for scripts of length 1 the partial line runs over every prefix length 1..27 of a 28-digit frame; distinct_nontrivial = distinct (script, final key set) outcomes" },
+        rule: if t.thorough() { "every script of length <= 5 over {refuse, accept+close, accept+frames(X_k)+close, accept+partial line+reset, accept+junk bytes+close, accept+frames+connection healthy for 6 s (virtual monotonic time)+close, accept+long non-UTF-8 junk+close} (19608 scripts) followed by a healthy connection delivering frames of Y and staying open; for scripts of length 1 the partial line runs over every prefix length 1..27 of a 28-digit frame; the length-1 scripts are repeated against the real release CLI with real 5 s pauses; distinct_nontrivial = distinct (script, final key set) outcomes" } else { "every script of length <= 4 over {refuse, accept+close, accept+frames(X_k)+close, accept+partial line+reset, accept+junk bytes+close, accept+frames+connection healthy for 6 s (virtual monotonic time)+close, accept+long non-UTF-8 junk+close} (2801 scripts) followed by a healthy connection delivering frames of Y and staying open; for scripts of length 1 the partial line runs over every prefix length 1..27 of a 28-digit frame; distinct_nontrivial = distinct (script, final key set) outcomes" },
         assumptions: vec![
             "the pause after a failed attempt is observed through the interposed clock_nanosleep (requested duration recorded, the sleeper blocks on a gate the script releases): exactly one request of 5 s +- 1 s per refused attempt".into(),
             "final table oracle: equal to the table the file source produces from the same complete lines in the same order (a partial last line may or may not have reached the reader before the reset: both readings admitted)".into(),
+            "elapsed time inside the TCP loop is virtual: CLOCK_MONOTONIC is interposed with an offset that a released pause advances by its requested duration and a 'healthy for 6 s' step advances by 6 s".into(),
             "real network timing is not explored: the peer is scripted at the granularity connect / accept / send / close / reset".into(),
         ],
     }
@@ -28,7 +29,7 @@ fn level(t: Tier) -> Level {
 
 fn gate(p: &Partial, t: Tier) -> Result<(), String> {
     super::default_gate(p, t)?;
-    super::need(p, "script", 150)?;
+    super::need(p, "script", 2000)?;
     super::need(p, "pause-checked", 300)?;
     super::need(p, "partial-variant", 27)?;
     super::need(p, "earlier-aircraft-kept", 100)?;
@@ -64,13 +65,30 @@ fn junk_bytes() -> Vec<u8> {
     v
 }
 
+/// long lines of bytes that are not UTF-8 (every alignment of the 3-byte replacement character)
+fn long_junk_bytes() -> Vec<u8> {
+    let mut v = vec![];
+    for pad in 0..3 {
+        v.extend(std::iter::repeat_n(b'x', pad));
+        v.extend(std::iter::repeat_n(0xFFu8, 90));
+        v.push(b'\n');
+    }
+    v.extend(std::iter::repeat_n(0xC3u8, 300));
+    v.push(b'\n');
+    v
+}
+
+const NSYM: usize = 7;
+
 fn step_of(sym: usize, k: usize, partial_len: usize) -> Step {
     match sym {
         0 => Step::Refuse,
         1 => Step::AcceptClose,
         2 => Step::AcceptSend(frames_of(x_addr(k))),
         3 => Step::AcceptPartialReset(partial_of(k, partial_len)),
-        _ => Step::AcceptJunk(junk_bytes()),
+        4 => Step::AcceptJunk(junk_bytes()),
+        5 => Step::AcceptSendHold(frames_of(x_addr(k)), 6),
+        _ => Step::AcceptJunk(long_junk_bytes()),
     }
 }
 
@@ -85,7 +103,7 @@ fn expected(script: &[Step]) -> (Vec<Snap>, Vec<Snap>) {
     let mut without = vec![];
     for s in script {
         match s {
-            Step::AcceptSend(b) | Step::AcceptJunk(b) => {
+            Step::AcceptSend(b) | Step::AcceptJunk(b) | Step::AcceptSendHold(b, _) => {
                 for v in [&mut with, &mut without] {
                     v.extend_from_slice(b);
                     if !b.ends_with(b"\n") {
@@ -156,7 +174,7 @@ fn eval_script(ctx: &mut Ctx, syms: &[usize], partial_len: usize) {
         ctx.violation("C18/healthy-not-decoded", &key, || format!("script {key}: after the healthy connection Y is not in the table ({} rows)", got.len()), case);
         return;
     }
-    if script.iter().any(|s| matches!(s, Step::AcceptSend(_) | Step::AcceptPartialReset(_))) {
+    if script.iter().any(|s| matches!(s, Step::AcceptSend(_) | Step::AcceptPartialReset(_) | Step::AcceptSendHold(..))) {
         ctx.count("earlier-aircraft-kept");
     }
     if *got != with && *got != without {
@@ -239,10 +257,10 @@ fn cli_script(ctx: &mut Ctx, sym: usize) {
 }
 
 fn run(ctx: &mut Ctx) {
-    let maxlen = if ctx.tier.thorough() { 6 } else { 4 };
+    let maxlen = if ctx.tier.thorough() { 5 } else { 4 };
     let mut job = 0u64;
     for len in 0..=maxlen {
-        for idx in 0..5usize.pow(len as u32) {
+        for idx in 0..NSYM.pow(len as u32) {
             job += 1;
             if !ctx.mine(job) {
                 continue;
@@ -250,8 +268,8 @@ fn run(ctx: &mut Ctx) {
             let mut syms = vec![];
             let mut x = idx;
             for _ in 0..len {
-                syms.push(x % 5);
-                x /= 5;
+                syms.push(x % NSYM);
+                x /= NSYM;
             }
             eval_script(ctx, &syms, 9);
         }
